@@ -777,6 +777,19 @@ pub fn emit(prop: &str, g: &mut Gen, out: &mut Vec<String>) {
                     let dd = d + g.rng.range(-3, 3);
                     push(out, format!("at_ymd {ct} {y} {m} {}", dd.max(0)));
                     push(out, format!("at_ymd {ct} {} {} {}", y + g.rng.range(-1, 1), g.rng.range(1, 12), g.rng.range(1, 31)));
+                    // the dates of the months cut short by the range ends, as the iterator and
+                    // `nth_date` hand them out (labels and day numbers must be the definition's)
+                    if g.rng.chance(1, 2) {
+                        let n = 2 + g.rng.below(5);
+                        let dops: String = (0..n).map(|_| *g.rng.pick(&['f', 'b', 'n', 'N', 'z', 'r'])).collect();
+                        let (yy, mm) = if ct == "J" {
+                            *g.rng.pick(&[(-5884202i64, 3u32), (5874777, 10)])
+                        } else {
+                            *g.rng.pick(&[(-5884323i64, 5u32), (5874898, 6)])
+                        };
+                        push(out, format!("dates_ops {ct} {yy} {mm} {dops}"));
+                        push(out, format!("shapeq {ct} {yy} {mm} {}", g.rng.range(1, 31)));
+                    }
                 }
             }
         }
@@ -832,6 +845,22 @@ pub fn emit(prop: &str, g: &mut Gen, out: &mut Vec<String>) {
                 ops.push(op);
             }
             push(out, format!("hist {ct} {j} {}", ops.join(" ")));
+            // dates handed out by `dates()` under every way of driving the iterator (next, nth,
+            // nth_back, from both ends), in the month of the date and in the months cut short by
+            // the ends of the day-number range
+            if g.rng.chance(1, 4) {
+                let jj = match g.rng.below(4) {
+                    0 => I32_MIN + g.rng.range(0, 40),
+                    1 => I32_MAX - g.rng.range(0, 40),
+                    _ => j,
+                };
+                let (y, m, _) = oc.label(jj);
+                if (I32_MIN..=I32_MAX).contains(&y) {
+                    let n = 2 + g.rng.below(7);
+                    let dops: String = (0..n).map(|_| *g.rng.pick(&['f', 'f', 'b', 'b', 'n', 'm', 'N', 'M', 'z', 'r', 'x', 'w'])).collect();
+                    push(out, format!("dates_ops {ct} {y} {m} {dops}"));
+                }
+            }
             // "equality, ordering and hashing of dates never disagree": the date the history ends
             // with against the same day reached directly, in the same and in another calendar
             if g.rng.chance(1, 3) {
@@ -879,6 +908,19 @@ pub fn emit(prop: &str, g: &mut Gen, out: &mut Vec<String>) {
             push(out, format!("shape {ct} {y} {m}"));
             push(out, format!("shapeq {ct} {y} {m} {d}"));
             push(out, format!("shapeq {ct} {y} {m} {}", g.rng.range(0, 33)));
+            // equality and hashing of shapes: the same month in another calendar, a neighbouring
+            // month or year in the same one
+            if g.rng.chance(1, 3) {
+                let c2 = match g.rng.below(6) {
+                    0 | 1 => ct.clone(),
+                    2 => "J".to_string(),
+                    3 => "G".to_string(),
+                    _ => g.cal().0,
+                };
+                let y2 = if g.rng.chance(3, 4) { y } else { clamp(y + g.rng.range(-1, 1), I32_MIN, I32_MAX) };
+                let m2 = if g.rng.chance(3, 4) { m } else { g.rng.range(1, 12) as u32 };
+                push(out, format!("shape_eq {ct} {y} {m} {c2} {y2} {m2}"));
+            }
         }
         "C10" => {
             let (ct, oc) = g.cal();
@@ -1048,7 +1090,41 @@ pub fn emit(prop: &str, g: &mut Gen, out: &mut Vec<String>) {
                     "Thur", "", "Ma", "Mayo", "Juno",
                 ];
                 let base = *g.rng.pick(&names);
-                let s: String = match g.rng.below(8) {
+                let s: String = match g.rng.below(11) {
+                    8 | 9 => {
+                        // a window of a table of names laid end to end (a lookup that scans a packed
+                        // table may accept a hit that straddles two entries), optionally followed by
+                        // the tail of a real name
+                        let months = ["January", "February", "March", "April", "May", "June", "July", "August", "September",
+                            "October", "November", "December"];
+                        let days = ["Monday", "Tuesday", "Wednesday", "Thursday", "Friday", "Saturday", "Sunday"];
+                        let (tab, fulls): (String, &[&str]) = match g.rng.below(4) {
+                            0 => (months.iter().map(|n| &n[..3]).collect::<Vec<_>>().concat(), &months[..]),
+                            1 => (days.iter().map(|n| &n[..3]).collect::<Vec<_>>().concat(), &days[..]),
+                            2 => (months.concat(), &months[..]),
+                            _ => (days.concat(), &days[..]),
+                        };
+                        let tab = format!("{tab}{tab}");
+                        let len = if g.rng.chance(3, 4) { 3 } else { 2 + g.rng.below(8) as usize };
+                        let off = g.rng.below((tab.len() / 2) as u64) as usize;
+                        let mut w: String = tab[off..off + len].to_string();
+                        if g.rng.chance(1, 2) {
+                            let f = *g.rng.pick(fulls);
+                            w.push_str(&f[3..]);
+                        }
+                        match g.rng.below(3) {
+                            0 => w.to_lowercase(),
+                            1 => w.to_uppercase(),
+                            _ => w,
+                        }
+                    }
+                    10 => {
+                        // the head of one name and the tail of another
+                        let other = *g.rng.pick(&names);
+                        let i = (g.rng.below(4) as usize).min(base.len());
+                        let j = (g.rng.below(4) as usize).min(other.len());
+                        format!("{}{}", &base[..i], &other[j..])
+                    }
                     0 => base.to_string(),
                     1 => base.to_uppercase(),
                     2 => base.to_lowercase(),
@@ -1197,6 +1273,21 @@ pub fn emit(prop: &str, g: &mut Gen, out: &mut Vec<String>) {
         "C19" => {
             let n = g.rng.below(7);
             let mut toks: Vec<Vec<u8>> = Vec::new();
+            if g.rng.chance(1, 60) {
+                // very many arguments (a counter or a buffer sized for "a few" may wrap): all
+                // invalid, all valid, or one invalid argument among valid ones
+                g.hit("cli:many-args");
+                let k = *g.rng.pick(&[255usize, 256, 257, 300, 512, 513, 1024]);
+                let mode = g.rng.below(3);
+                let bad_at = g.rng.below(k as u64) as usize;
+                for i in 0..k {
+                    let bad = mode == 0 || (mode == 2 && i == bad_at);
+                    toks.push(if bad { b"abc".to_vec() } else { (2299161 + i as i64).to_string().into_bytes() });
+                }
+                if g.rng.chance(1, 3) {
+                    toks.insert(0, b"-J".to_vec());
+                }
+            }
             for _ in 0..n {
                 let t: Vec<u8> = match g.rng.below(16) {
                     0 => cli_option(g).join(" ").into_bytes(),
